@@ -144,6 +144,12 @@ func (e *Engine) tagOf(t types.Type) int {
 	if n, ok := e.tags[k]; ok {
 		return n
 	}
+	for n, u := range e.tagTypes {
+		if types.Identical(t, u) {
+			e.tags[k] = n
+			return n
+		}
+	}
 	n := len(e.tags) + 1
 	e.tags[k] = n
 	e.tagTypes[n] = t
@@ -544,9 +550,9 @@ func (s *State) sliceOp(instr *ssa.Slice) Val {
 	s.assume(goal)
 	r := Val{T: instr.Type(), Sl: &SliceV{
 		Base: x.Sl.Base,
-		Off:  s.define("so", sInt, app("+", x.Sl.Off, lo)),
-		Len:  s.define("sl", sInt, app("-", hi, lo)),
-		Cap:  s.define("sc", sInt, app("-", capv, lo)),
+		Off:  s.define("so", sInt, addT(x.Sl.Off, lo)),
+		Len:  s.define("sl", sInt, subT(hi, lo)),
+		Cap:  s.define("sc", sInt, subT(capv, lo)),
 	}}
 	return r
 }
